@@ -263,7 +263,7 @@ class TlSchemas:
                             attach_len = 1
                             byte_len = int.from_bytes(data[i:i+1], 'little')
                             i += 1
-                        if ((not self._auto_deserialize) or
+                        if (type_ == 'string' or (not self._auto_deserialize) or  # a text is never a nested TL object
                                 (schema is not None and
                                  schema.name in self.untouchables
                                  and field in self.untouchables[schema.name])):
